@@ -112,6 +112,20 @@ function freset(qubit p) -> void {
 function inner2(qubit p) -> void {
     fh(p);
 }
+function mkH1() -> H1 {
+    H1 fresh = new H1();
+    return fresh;
+}
+function mkHT() -> HT {
+    return new HT();
+}
+function mkHA() -> HA {
+    HA fresh = new HA();
+    return fresh;
+}
+function mkHD() -> HD {
+    return new HD();
+}
 """
 
 
@@ -315,7 +329,9 @@ class Gen:
         name = self.fresh("o")
         self.scopes[-1]["objs"].append((name, cls))
         self.nq += need
-        return dict(k="new", name=name, cls=cls)
+        # through a factory function: the object travels through the interpreter's return slot
+        via = "func" if cls in ("H1", "HT", "HA", "HD") and self.r.random() < 0.35 else "new"
+        return dict(k="new", name=name, cls=cls, via=via)
 
     def stmt_destroy(self):
         objs = self.scopes[-1]["objs"]
@@ -368,7 +384,7 @@ class Gen:
         qs = self.pick_q(1)
         if not qs:
             return None
-        form = self.r.choice(["stmt", "expr", "expr", "qfunc", "fstmt", "method"])
+        form = self.r.choice(["stmt", "expr", "expr", "qfunc", "fstmt", "method", "echoexpr"])
         bit = None
         if form in ("expr", "qfunc", "method"):
             bit = self.fresh("b")
@@ -591,7 +607,10 @@ class Renderer:
             else:
                 self.emit(ind, "%squbit[%d] %s;" % (t, s["n"], s["name"]), s)
         elif k == "new":
-            self.emit(ind, "%s %s = new %s();" % (s["cls"], s["name"], s["cls"]), s)
+            if s.get("via") == "func":
+                self.emit(ind, "%s %s = mk%s();" % (s["cls"], s["name"], s["cls"]), s)
+            else:
+                self.emit(ind, "%s %s = new %s();" % (s["cls"], s["name"], s["cls"]), s)
         elif k == "destroy":
             self.emit(ind, "destroy %s;" % s["name"], s)
         elif k == "alias":
@@ -627,6 +646,8 @@ class Renderer:
                 self.emit(ind, "bit %s = u.mm(%s);" % (s["bit"], q), s)
             elif f == "fstmt":
                 self.emit(ind, "fms(%s);" % q, s)
+            elif f == "echoexpr":
+                self.emit(ind, "echo(measure %s);" % q, s)    # the argument of echo has an effect
         elif k == "measure_reg":
             if s["kind"] == "reg":
                 self.emit(ind, "measure %s;" % s["name"], s)
@@ -679,6 +700,11 @@ class Renderer:
         for s in ir:
             self.stmt(s, 1)
         self.emit(0, "}")
+        if len(self.lines) % 2:
+            # a declaration after main: whatever is attached to main (@shots) must survive it
+            self.emit(0, "function after_main(qubit p) -> void {")
+            self.emit(1, "z(p);")
+            self.emit(0, "}")
         return PRELUDE + "\n".join(self.lines) + "\n"
 
 
@@ -1126,6 +1152,13 @@ class Model:
             out = self.measure(idx)
             if s.get("bit"):
                 self.scopes[-1][s["bit"]] = ("bit", out)
+            if s["form"] == "echoexpr":
+                e = self.next_event(("echo",))
+                self.counts["echoes"] += 1
+                if e is None or e["text"] != str(out):
+                    self.report("C02", "measure:views:echo", "echo(measure q) printed %r, the simulator "
+                                "reported %d" % (e and e["text"], out))
+                self.echoes.append(str(out))
         elif k == "measure_reg":
             if s["kind"] == "reg":
                 ix = self.lookup(s["name"])[1]
